@@ -126,6 +126,15 @@ fn type_def() -> impl Strategy<Value = TypeDef> {
         .prop_map(|(shape, generic)| TypeDef { shape, generic })
 }
 
+/// Name of field k of a named struct: the second field is called `ids` (a name generated code may use itself).
+fn nf(k: usize) -> String {
+    if k == 1 {
+        "ids".to_string()
+    } else {
+        format!("f{}", k)
+    }
+}
+
 /// Every third variant (of any kind) carries a forwarded serde attribute of its own.
 fn variant_attr(k: usize) -> String {
     if k % 3 == 1 {
@@ -348,6 +357,7 @@ fn perm_expr(f: &FT, x: &str, g: u8) -> String {
 }
 
 fn print_type(out: &mut String, i: usize, t: &NType) {
+    let start = out.len();
     // the bound of a generic parameter is written inline or (odd type index) in a where clause
     let (gdecl, wh) = match (t.generic, i % 2) {
         (false, _) => ("", ""),
@@ -359,7 +369,7 @@ fn print_type(out: &mut String, i: usize, t: &NType) {
         Shape::Named(fs) => {
             let _ = writeln!(out, "pub struct T{}{}{} {{", i, gdecl, wh);
             for (k, f) in fs.iter().enumerate() {
-                let _ = writeln!(out, "    {}pub f{}: {},", attrs(f).replace("RENAMED", &format!("r{}", k)), k, ty_name(f, "E"));
+                let _ = writeln!(out, "    {}pub {}: {},", attrs(f).replace("RENAMED", &format!("r{}", k)), nf(k), ty_name(f, "E"));
             }
             let _ = writeln!(out, "}}");
         }
@@ -398,7 +408,7 @@ fn print_type(out: &mut String, i: usize, t: &NType) {
         let _ = writeln!(out, "#[allow(unused_variables)]\nfn make_{}(r: &mut Rng, ents: &[Entity]) -> {} {{", tag, ty);
         match &t.shape {
             Shape::Named(fs) => {
-                let body: Vec<String> = fs.iter().enumerate().map(|(k, f)| format!("f{}: {}", k, make_expr(f, g))).collect();
+                let body: Vec<String> = fs.iter().enumerate().map(|(k, f)| format!("{}: {}", nf(k), make_expr(f, g))).collect();
                 let _ = writeln!(out, "    T{} {{ {} }}", i, body.join(", "));
             }
             Shape::Tuple(fs) => {
@@ -429,12 +439,13 @@ fn print_type(out: &mut String, i: usize, t: &NType) {
         let _ = writeln!(out, "}}");
         // reference JSON
         let _ = writeln!(out, "#[allow(unused_variables)]\nfn ref_{}(v: &{}, m: &dyn Fn(Entity) -> Value) -> Value {{", tag, ty);
+        let is_struct = matches!(t.shape, Shape::Named(_));
         let obj = |fs: &Vec<FT>, bind: &dyn Fn(usize) -> String| -> String {
             let parts: Vec<String> = fs
                 .iter()
                 .enumerate()
                 .filter_map(|(k, f)| {
-                    let key = if matches!(f, FT::EntityRenamed | FT::U8Renamed) { format!("r{}", k) } else { format!("f{}", k) };
+                    let key = if matches!(f, FT::EntityRenamed | FT::U8Renamed) { format!("r{}", k) } else if is_struct { nf(k) } else { format!("f{}", k) };
                     ref_expr(f, &bind(k), g).map(|e| format!("(\"{}\".to_string(), {})", key, e))
                 })
                 .collect();
@@ -450,7 +461,7 @@ fn print_type(out: &mut String, i: usize, t: &NType) {
         };
         match &t.shape {
             Shape::Named(fs) => {
-                let _ = writeln!(out, "    {}", obj(fs, &|k| format!("(&v.f{})", k)));
+                let _ = writeln!(out, "    {}", obj(fs, &|k| format!("(&v.{})", nf(k))));
             }
             Shape::Tuple(fs) => {
                 let _ = writeln!(out, "    {}", seq(fs, &|k| format!("(&v.{})", k)));
@@ -480,7 +491,7 @@ fn print_type(out: &mut String, i: usize, t: &NType) {
         let _ = writeln!(out, "#[allow(unused_variables)]\nfn perm_{}(v: &{}, pi: &dyn Fn(Entity) -> Entity, direct: bool) -> {} {{", tag, ty, ty);
         match &t.shape {
             Shape::Named(fs) => {
-                let body: Vec<String> = fs.iter().enumerate().map(|(k, f)| format!("f{}: {}", k, perm_expr(f, &format!("(&v.f{})", k), g))).collect();
+                let body: Vec<String> = fs.iter().enumerate().map(|(k, f)| format!("{}: {}", nf(k), perm_expr(f, &format!("(&v.{})", nf(k)), g))).collect();
                 let _ = writeln!(out, "    T{} {{ {} }}", i, body.join(", "));
             }
             Shape::Tuple(fs) => {
@@ -511,6 +522,16 @@ fn print_type(out: &mut String, i: usize, t: &NType) {
         }
         let _ = writeln!(out, "}}");
         let _ = writeln!(out, "fn check_{tag}(cx: &Cx, seed: u64, n: u32) {{ check::<{ty}>(\"{tag}\", {i}, cx, seed, n, make_{tag}, ref_{tag}, perm_{tag}); }}", tag = tag, ty = ty, i = i);
+    }
+    // every fourth (non-generic) type is defined through a macro_rules! fragment, so the derive sees its
+    // entity fields as `$t:ty` fragments (syn's Type::Group) instead of plain paths
+    if !t.generic && i % 4 == 3 {
+        let def = out.split_off(start);
+        if def.contains("Entity") {
+            let _ = writeln!(out, "macro_rules! def_T{} {{ ($ent:ty) => {{\n{}}} }}\ndef_T{}!(Entity);", i, def.replace("Entity", "$ent"), i);
+        } else {
+            out.push_str(&def);
+        }
     }
 }
 
@@ -720,7 +741,9 @@ fn build_and_run(p: &Program, shard: usize) -> Result<RunOut, Violation> {
     let _ = std::fs::create_dir_all(dir.join(".cargo"));
     std::fs::write(
         dir.join("Cargo.toml"),
-        "[package]\nname = \"c18-gen\"\nversion = \"0.0.0\"\nedition = \"2021\"\npublish = false\n\n[dependencies]\nspecs = { path = \"/repo\", features = [\"serde\", \"derive\"] }\nserde = { version = \"1\", features = [\"derive\"] }\nserde_json = \"1\"\n\n[profile.dev]\nopt-level = 0\ndebug = 0\nincremental = false\n\n[workspace]\n",
+        // (development aid: VERIF_DEV_REPO points the generated crate at a scratch copy of the repository)
+        "[package]\nname = \"c18-gen\"\nversion = \"0.0.0\"\nedition = \"2021\"\npublish = false\n\n[dependencies]\nspecs = { path = \"/repo\", features = [\"serde\", \"derive\"] }\nserde = { version = \"1\", features = [\"derive\"] }\nserde_json = \"1\"\n\n[profile.dev]\nopt-level = 0\ndebug = 0\nincremental = false\n\n[workspace]\n"
+            .replace("\"/repo\"", &format!("\"{}\"", std::env::var("VERIF_DEV_REPO").unwrap_or_else(|_| "/repo".to_string()))),
     )
     .map_err(|e| Violation::new("INFRA", "gen-write", e.to_string()))?;
     std::fs::write(dir.join(".cargo/config.toml"), "[net]\noffline = true\n").map_err(|e| Violation::new("INFRA", "gen-write", e.to_string()))?;
